@@ -56,22 +56,22 @@ CHECKS.update({
     "C02": dict(
         technique="Coq statements over the typed comparison tables regenerated from Searcher::conforms + differential test of atomic WHERE conditions against lstat attributes and against those tables",
         text="The Int / Bool / DateTime comparison tables are re-extracted from the source on every run and pinned by theorems (C02_int_table, C02_bool_table, C02_bool_words, C02_between_inclusive); every generated atomic condition (all spellings of the eight comparison operators, unit literals, boolean words, BETWEEN, column-vs-column) is run on the binary and compared with the comparison evaluated on the entry's lstat attributes and with the regenerated tables.",
-        note="Partial: Variant coercions (to_int fallbacks) are exercised by the differential test only; negative literals (F43), quoted literals spelling a column/function name (F44) and the empty literal (F45) are recorded findings outside the generated domain. Pattern operators are C12's, dates C13's.",
+        note="Partial: Variant coercions (to_int fallbacks) are exercised by the differential test only; negative literals (F43, fixed) and quoted literals that spell a column, a function or the Display text of the left-hand expression (F44, fixed) are inside the generated domain; the empty literal (F45) is a recorded finding. Pattern operators are C12's, dates C13's.",
         design="6 C02"),
     "C03": dict(
-        technique="Coq proof that negation (operator table regenerated from operators.rs + AND/OR swap) is the complement on every condition tree over well-typed atoms, De Morgan and double negation + bounded-exhaustive differential test of result sets",
-        text="C03_not_is_complement, C03_double_negation, C03_de_morgan_*, C03_between_inclusive / C03_not_between_complement are proved over Op_negate and the comparison tables as regenerated from the source. Every formula shape up to a size bound over three atoms (and random deeper ones) is run on the binary; its result set must equal the Boolean combination of its atoms' own result sets.",
-        note="The step from condition trees to the parser's Expr trees (precedence, brackets, prefix-not parity, BETWEEN desugaring) is covered by the differential test here and by the parser model; atoms' own meaning is C02's subject.",
+        technique="Coq proofs: negation (operator table regenerated from operators.rs + AND/OR swap) is the complement on every condition tree over well-typed atoms, De Morgan, double negation; and the PARSER theorem: for every formula over AND / OR / NOT / brackets rendered with minimal bracketing, the model of Parser::parse_expr (with the parser's own fuel) returns a tree whose meaning under Searcher::conforms is the formula's Boolean denotation + bounded-exhaustive differential test of result sets",
+        text="C03_not_is_complement, C03_double_negation, C03_de_morgan_*, C03_between_*: over Op_negate and the comparison tables as regenerated from the source. C03_parser_boolean_algebra: for EVERY formula (any depth) the parser model - compared with the real parser on every run - yields the Boolean meaning: precedence of AND over OR, brackets, parity of stacked NOTs and the De Morgan push-down of `not (...)`. Every formula shape up to a size bound over three atoms (and random deeper ones) is run on the binary; its result set must equal the Boolean combination of the result sets of its atoms.",
+        note="The parser theorem covers atoms `column OP digits` (all operators except BETWEEN) with round brackets at the token level (the lexer maps both bracket styles to the same tokens, C11); BETWEEN desugaring and the infix `not like` are covered by the differential test; the meaning of the atoms themselves is C02's subject.",
         design="6 C03"),
     "C20": dict(
-        technique="Coq proof that, for an arbitrary per-entry ignore verdict, the walker returns exactly the entries with no ignored ancestor-or-self + differential test against `git check-ignore` over root spellings and option/config/no-override",
-        text="C20_pruning_spec / C20_pruning_walk hold for every tree and every verdict function over model/Walk.v. On every run git repositories with generated .gitignore files are searched with the root spelled '.', relative, absolute or as a sub-directory, with the option given, taken from the configuration or overridden; rows must be the entries git does not ignore and must equal the model fed git's verdicts.",
-        note="Partial: libgit2's matcher is not modelled (verdicts are inputs). The hgignore / dockerignore converters deviate from Mercurial's / Docker's semantics in recorded ways (F37, F38, F41) and are not compared with reference matchers in this round.",
+        technique="Coq proof that, for an arbitrary per-entry ignore verdict, the walker returns exactly the entries with no ignored ancestor-or-self + differential test against `git check-ignore` and against reference matchers of Docker's and Mercurial's rules, over root spellings and option/config/no-override",
+        text="C20_pruning_spec / C20_pruning_walk hold for every tree and every verdict function over model/Walk.v. On every run git repositories, docker build contexts and Mercurial repositories with generated ignore files are searched with the root spelled '.', relative, absolute or as a sub-directory (ignore file in the root or an ancestor), with the option given, taken from the configuration, overridden, or with only another tool enabled; rows must be the entries the tool does not ignore (git check-ignore; direct recursive matchers transcribing moby patternmatcher and hgignore(5)) and must equal the model fed those verdicts.",
+        note="Partial: libgit2's matcher is not modelled (verdicts are inputs); the Docker / Mercurial converters (rewritten by fix commits 8f57929, ccd81bf, 554a7aa) are compared with the reference matchers by the differential test, their Coq model is in progress. Known finding F53: Docker re-includes an entry below an excluded directory, fselect prunes the directory.",
         design="6 C20"),
     "C10": dict(
-        technique="Coq model of the lexer and the recursive-descent parser (tables regenerated from the source) with a proved termination bound for the lexer + differential test of outcome, error message and whole AST against the real lexer/parser, and of exit status / panic / hang on the binary",
-        text="C10_lexer_total bounds the lexer's iterations for every argument vector; model/Parser.v mirrors parser.rs with every unwrap/index/underflow as an explicit Panic outcome and loops on fuel; on every run thousands of argument vectors (valid queries, token soups, token/character mutations, every function with bad arguments, bad literals) are run through the real lexer+parser and compared with the model, and through the binary: status must be 0, 1 or 2 within 10 s, no panic text, no row after a parse-time rejection.",
-        note="Partial: parser totality (no Panic / OutOfFuel for every token list) is supported by the differential test, not yet by a theorem; the machine stack is not modelled (known finding F51: nesting thousands of levels deep overflows it); evaluation-time aborts are checked on the binary only.",
+        technique="Coq model of the lexer and the recursive-descent parser (tables regenerated from the source) with PROVED totality: the lexer's iteration bound and, for every token list and argument vector, the parser ends in a query or a status-2 diagnostic - never a panic site, never out of its own fuel + differential test of outcome, error message and whole AST against the real lexer/parser, and of exit status / panic / hang on the binary",
+        text="C10_lexer_total bounds the lexer's iterations for every argument vector; C10_parser_total / C10_parser_total_tokens / C10_parse_expr_total: model/Parser.v mirrors parser.rs with every unwrap / index / underflow as an explicit Panic outcome and loops on fuel, and for EVERY input the outcome is Ok or Exit2 (weakest-precondition proof, fuel linear in the remaining tokens). On every run thousands of argument vectors (valid queries, token soups, mutations, every function with bad arguments, bad literals incl. the former crash inputs) are run through the real lexer+parser and compared with the model, and through the binary: status 0, 1 or 2 within 10 s, no panic text, no row after a parse-time rejection.",
+        note="Partial: the machine stack is not modelled (known finding F51: nesting thousands of levels deep overflows it); evaluation-time aborts (function arguments, literals) are covered by the models of C13/C16 (parse_datetime_never_panics, wrong_kind_never_panics) and on the binary; the `~` root path is unmodelled.",
         design="6 C10"),
     "C07": dict(
         technique="Coq model of get_aggregate_value (f64 via primitive floats, integer parts in Z) with exactness theorems for COUNT/SUM/MIN/MAX and the textbook-variance theorem in Q + differential test of aggregate queries against exact rational arithmetic",
@@ -89,19 +89,19 @@ CHECKS.update({
         note="Known finding F23: with several arguments the search root extends to the end of its argument, so partial splits that leave words after the root in the same argument change the query; the generator keeps the root alone in its argument and the witness is replayed. Unicode lower-casing of keywords is modelled as ASCII (+ Kelvin sign).",
         design="6 C11"),
     "C15": dict(
-        technique="Executable Coq model of the whole pipeline for arithmetic columns (Lexer -> Parser -> get_column_expr_value with its Display-keyed cache -> f64 Display) with kernel-evaluated precedence/associativity/bracket witnesses over the regenerated operator table + differential test of select lists and WHERE expressions",
-        text="C15_operator_table pins ArithmeticOp::calc as regenerated; C15_parse_witnesses evaluates, through the model parser and evaluator, the witnesses that separate every precedence / associativity / bracket / unary-minus rule and the column pairs that differ only in operator or brackets. On every run random expressions to depth 4 in select lists of 1-5 columns are evaluated by the binary and compared with binary64 arithmetic (oracle), with the same column selected alone, and with the model pipeline; WHERE on expressions likewise.",
-        note="The general parser round-trip theorem (for every expression) is not yet proved: the witnesses are finite. f64 % is compared with the oracle only. Literals are plain numbers (unit literals inside arithmetic go through parse_filesize, C14).",
+        technique="Coq proofs over the model of the parser and of the Display text of expressions: for EVERY arithmetic expression (numbers, columns, leading minus, + - * / %), rendering with exactly the brackets the documented precedence/associativity requires and parsing with the model of Parser::parse_add_sub (parser's own fuel) returns that very tree; the Display text that keys the per-row value cache is injective on such expressions + executable model of the whole pipeline with witnesses + differential test of select lists and WHERE expressions",
+        text="C15_parser_precedence_assoc (all expressions, any position in any token list), C15_cache_key_injective / C15_cache_key_readable (two different expressions never share a cache slot), C15_operator_table (ArithmeticOp::calc as regenerated), C15_parse_witnesses (through lexer, parser and evaluator). On every run random expressions to depth 4 in select lists of 1-5 columns are evaluated by the binary and compared with binary64 arithmetic (oracle), with the same column selected alone, and with the model pipeline; WHERE on expressions likewise.",
+        note="Function calls, quoted strings and the word operators (plus, mul, ...) are outside the rendered language of the round-trip theorem (covered by the differential test). f64 % is compared with the oracle only. Literals are plain numbers (unit literals inside arithmetic go through parse_filesize, C14).",
         design="6 C15"),
     "C16": dict(
-        technique="Differential test of function::get_value (through #[path] inclusion) and of nested calls on the binary against the documented value of each function; Coq model of the functions with per-function theorems (in progress)",
-        text="Every documented scalar function is called with structured and adversarial argument strings through the real get_value and compared exactly with its documented value (libm-backed ones with 1e-12 tolerance); wrong-kind arguments must yield an empty value or a status-2 diagnostic; compositions to depth 3 over generated entries are compared on the binary. The generated function-name table is pinned by a theorem.",
-        note="Until model/Funcs.v is integrated the theorems for this property are limited to the name table; Unicode case mapping beyond ASCII/Latin/Greek/Cyrillic and the cases the documentation leaves open (SUBSTR position 0, length 0; empty REPLACE needle) are counted, not judged.",
+        technique="Coq model of function::get_value (model/Funcs.v; UTF-8, base64, Unicode White_Space, case tables read off the real code) with per-function theorems against a documentation-level spec (spec/FuncsSpec.v) for every argument string, and a proved no-crash theorem + differential test of the real get_value against the model and against an independent Python oracle, and of nested calls on the binary",
+        text="40 theorems (props/C16.v): LENGTH counts characters; TRIM/LTRIM/RTRIM remove exactly the Unicode White_Space; SUBSTR equals the 1-based / from-the-end spec for every i32 position; REPLACE is leftmost non-overlapping replacement; TO_BASE64 is RFC 4648 of the UTF-8 bytes and FROM_BASE64 inverts it on every text; BIN/HEX/OCT are the positional numerals of z mod 2^64; LEAST/GREATEST bounds; FORMAT_TIME units; YEAR/MONTH/DAY/DOW on canonical dates; wrong_kind_never_panics for every function and argument. On every run the real get_value is compared call by call with the model (outcome class, type, text, diagnostic), with a Python oracle, and compositions to depth 3 on the binary.",
+        note="Unmodelled (hooks in the model, counted and skipped in the comparison): libm pow/ln/exp outside exact cases, case mapping outside ASCII/Latin-1/Ext-A/Greek/Cyrillic/caseless ranges and the Final_Sigma rule, chrono_english free-form dates. abs_nonneg and least_greatest_bounds use the standard library's FloatAxioms (abs_spec, ltb_spec) for the kernel's primitive floats. SUBSTR length 0 means `to the end` and POWER without exponent returns 1 (kept visible as theorems).",
         design="6 C16"),
     "C18": dict(
-        technique="Executable Coq graph model of visit_dir with the symlinks option (visited_dirs, visited_inodes keyed by the target's inode, gates regenerated from the source) with kernel-evaluated cycle witnesses + differential test on link-decorated trees incl. cycles, chains, mutual and self links",
-        text="model/WalkLinks.v mirrors the follow-symlinks branch after the four fix commits; on every run trees decorated with links of every kind are searched with and without the option, bfs and dfs: the search must terminate with status 0, list every (reachable real directory, entry) pair exactly once, list nothing from behind a link without the option, and produce exactly the model's row sequence on the observed graph.",
-        note="Termination and once-per-directory are not yet theorems for every graph (witnesses + differential test); the depth window behind followed links is computed from canonical paths by the source and only reproduced, not specified.",
+        technique="Coq proofs over an executable graph model of visit_dir with the symlinks option (visited_dirs, visited_inodes keyed by the target's inode, gates regenerated from the source): termination for EVERY graph with an explicit fuel bound, one traversal per real directory, exactly the reachable directories, every entry reported once + differential test on link-decorated trees incl. cycles, chains, mutual and self links",
+        text="C18_terminates / C18_fuel_irrelevant (any graph, gates, order, limit), C18_once (no inode marked twice, no directory read twice), C18_only_reachable, C18_exactly_the_reachable_directories (no depth limit), C18_rows (rows = permutation of the listings of the directories read). On every run trees decorated with links of every kind are searched with and without the option, bfs and dfs: status 0, every (reachable real directory, entry) pair exactly once, nothing from behind a link without the option, exactly the model's row sequence on the observed graph - the model run with the theorem's own fuel bound, the observed graph tested for the theorem's hypothesis wf_graph.",
+        note="Completeness needs path_functional (a spelled path names one directory), true of a real file system but not tested per case; the depth window behind followed links is computed from canonical paths by the source and only reproduced, not specified.",
         design="6 C18"),
 })
 
